@@ -2,6 +2,7 @@ SPECIFICATION Spec
 CONSTANTS
   Pool = {"ct_good", "ct_bad", "ct_many", "ct_expr", "closure", "use_struct", "loops", "long_names"}
   EntryOps = {}
+  FirstOps = {}
   MaxLen = 3
   EmitHist = TRUE
 INVARIANT NoStaleRead
